@@ -126,7 +126,6 @@ def configurations(tier, seed):
   rng = np.random.RandomState(seed)
   n_unsup, n_sup, n_arr = (150, 60, 12) if tier == 'quick' else (1500, 500, 60)
   out = []
-  k = 0
   for i in range(n_unsup):
     d = [1, 2, 3, 5][i % 4]
     n_tr = [d, d + 1, 12, 40][(i // 4) % 4]
@@ -149,10 +148,10 @@ def configurations(tier, seed):
                     max_iter=mi, output_iter=oi, random_state=int(rng.randint(0, 1000)),
                     data_seed=int(rng.randint(0, 2 ** 31 - 1))))
   for i in range(n_arr):
-    d = [1, 2, 3][i % 3]
+    d = [2, 3, 1][i % 3]
     mi, oi = MAXOUT[(i + 1) % len(MAXOUT)]
     cfg = dict(cls=['SCML', 'SCML_Supervised'][(i // 3) % 2], basis='array', d=d,
-               n_basis=[1, d, 2 * d + 1][(i // 2) % 3] if i else 1, array_kind=['random', 'identity-rows', 'unnormalised'][i % 3],
+               n_basis=[d, 1, 2 * d + 1][(i // 2) % 3], array_kind=['random', 'identity-rows', 'unnormalised'][i % 3],
                beta=BETAS[rng.randint(len(BETAS))], gamma=GAMMAS[rng.randint(len(GAMMAS))],
                batch_size=BATCH[rng.randint(len(BATCH))], max_iter=mi, output_iter=oi,
                random_state=int(rng.randint(0, 1000)), data_seed=int(rng.randint(0, 2 ** 31 - 1)))
@@ -363,7 +362,7 @@ def replay_clause(cid, fail, seed):
   for desc, tags, thunk in cases('quick', seed):
     if only is not None and not (set(tags) & only):
       continue
-    if want == 'array-basis' and TAG_GEN in tags or want == 'array-basis' and TAG_LDA in tags:
+    if want == 'array-basis' and 'basis=array' not in desc:
       continue
     bad = thunk()
     if bad and (want is None or bad['tag'] == want):
